@@ -1,11 +1,208 @@
-(* C09 — circuit rewrites preserve the transformation.  Statements only. *)
+(* C09 — circuit rewrites preserve the transformation.
+   Statements only; every proof is [exact <lemma>] (lemmas in Proofs/RewriteP.v).
+
+   Vocabulary (Model/Circuit.v, Model/Rewrite.v, Proofs/RewriteP.v):
+   - [cadd_list o e sp st]   CompiledCircuit.add of every component of sp to the state st = (n, U);
+                             [build o e c] = Circuit._build = cadd_list from (n_modes, identity): U_full.
+   - [steq s s']             same compile outcome: same dimension n and the same matrix entries on
+                             [0,n) x [0,n), or the same error.  [dim_ge N s]: s has at least N modes.
+   - [unpack_spec], [compress_spec] (compress_mode_swaps WITH the repair of finding N5),
+     [compress_pinned] (as on the pinned tree), [combine_swaps], [non_adj_spec], [freeze_spec].
+   - [rok N c]               what the rewrites need of a component of an N-mode circuit: beam splitter
+                             modes distinct and < N; a swap dictionary denotes a permutation of [0,N)
+                             with keys < N closed under it; the components of a Group act inside the
+                             span [mode_1, mode_2] the Group records (that span is what
+                             compress_mode_swaps blocks).  It follows from the invariant of the Circuit
+                             API (CompileP.wf) plus the span condition: [C09_hypotheses_from_wf].
+   All theorems are for every commutative ring with involution (K, o), every environment of parameter
+   values e, all mode counts and all spec lengths.
+
+   copy_independent: Circuit.copy is the identity on the model's (immutable) circuit value
+   ([copy_circ c = c]); "shares no mutable structure" is not expressible in a functional model and is
+   checked on the implementation by the oracle of harness/c09.py (mutation through the public API). *)
 From Coq Require Import ZArith List Bool Arith Lia.
 From LW Require Import Base.Sx Base.Num Base.Sums Base.Mat Base.Embed
      Model.Circuit Model.World Model.Rewrite Proofs.CompileP Proofs.RewriteP.
 Import ListNotations.
+Open Scope nat_scope.
 
+(* ---------------- unpack_groups ---------------- *)
+(* the compiled state (hence U_full) is literally the same, from every start state *)
 Theorem C09_unpack_preserves :
-  forall (K : Type) (o : ops K) (SRK : StarRing o) (e : env (K:=K)) (sp : list (comp (K:=K))) st,
+  forall (K : Type) (o : ops K) (e : env (K:=K)) (sp : list (comp (K:=K))) st,
     cadd_list o e (unpack_spec sp) st = cadd_list o e sp st.
-Proof. exact (fun K o _ => @unpack_cadd_list K o). Qed.
+Proof. exact (fun K o => @unpack_cadd_list K o). Qed.
 Print Assumptions C09_unpack_preserves.
+
+(* no Group remains (groups are never nested: Circuit.add unpacks what it groups; with nested groups
+   the Python "while" does not terminate) *)
+Theorem C09_unpack_no_group_remains :
+  forall (K : Type) (sp : list (comp (K:=K))),
+    no_nested sp -> Forall (fun c => is_group c = false) (unpack_spec sp).
+Proof. exact (fun K => @unpack_no_group K). Qed.
+Print Assumptions C09_unpack_no_group_remains.
+
+(* ---------------- remove_non_adjacent_bs ---------------- *)
+(* afterwards every beam splitter, also inside groups, acts on modes m, m+1 or m+1, m — for EVERY spec *)
+Theorem C09_non_adj_post :
+  forall (K : Type) (sp : list (comp (K:=K))), Forall adj_ok (non_adj_spec sp).
+Proof. exact (fun K => @non_adj_post K). Qed.
+Print Assumptions C09_non_adj_post.
+
+(* swap . BS . unswap is the beam splitter on the pre-images of its modes: for every complete swap
+   dictionary, either mode order, either convention *)
+Theorem C09_swap_bs_unswap_matrix :
+  forall (K : Type) (o : ops K) (SRK : StarRing o) N n sw a1 a2 x cv,
+    wf_swaps N sw -> N <= n -> a1 < N -> a2 < N ->
+    meq n (mmul (co o) n (swaps_mat o (inv_dict sw)) (mmul (co o) n (bs_mat o a1 a2 x cv) (swaps_mat o sw)))
+          (bs_mat o (swap_fun (inv_dict sw) a1) (swap_fun (inv_dict sw) a2) x cv).
+Proof. exact (fun K o SRK => @conj_bs_mat K o SRK). Qed.
+Print Assumptions C09_swap_bs_unswap_matrix.
+
+(* the synthesised dictionary is a complete swap dictionary that takes the lower mode to mid and the
+   upper one to mid+1 (so the pre-images above are the original modes) *)
+Theorem C09_non_adj_dictionary :
+  forall N lo hi, lo < hi -> hi < N ->
+    wf_swaps N (non_adj_swaps lo hi) /\
+    swap_fun (non_adj_swaps lo hi) lo = non_adj_mid lo hi /\
+    swap_fun (non_adj_swaps lo hi) hi = non_adj_mid lo hi + 1 /\
+    flip_dict (non_adj_swaps lo hi) = inv_dict (non_adj_swaps lo hi).
+Proof. exact non_adj_dictionary. Qed.
+Print Assumptions C09_non_adj_dictionary.
+
+(* the whole rewritten spec compiles to the same U_full, from every state with >= N modes *)
+Theorem C09_non_adj_preserves :
+  forall (K : Type) (o : ops K) (SRK : StarRing o) (e : env (K:=K)) N (sp : list (comp (K:=K))),
+    Forall (rok N) sp ->
+    forall s, dim_ge N s -> steq (cadd_list o e (non_adj_spec sp) s) (cadd_list o e sp s).
+Proof. exact (fun K o SRK => @non_adj_preserves K o SRK). Qed.
+Print Assumptions C09_non_adj_preserves.
+
+(* ---------------- combine_mode_swap_dicts ---------------- *)
+(* for a first dictionary that denotes a bijection (a complete dictionary does: [C09_complete_is_bijection]),
+   combine s1 s2 denotes "s1, then s2" as a function on all modes ... *)
+Theorem C09_combine_is_composition :
+  forall s1 s2,
+    (forall a b, swap_fun s1 a = swap_fun s1 b -> a = b) -> (forall k, exists k', swap_fun s1 k' = k) ->
+    forall k, swap_fun (combine_swaps s1 s2) k = swap_fun s2 (swap_fun s1 k).
+Proof. exact combine_is_composition. Qed.
+Print Assumptions C09_combine_is_composition.
+
+(* ... and its keys are the keys of s1 and s2 minus exactly the fixed points of the composition *)
+Theorem C09_combine_drops_only_fixed_points :
+  forall s1 s2,
+    (forall a b, swap_fun s1 a = swap_fun s1 b -> a = b) -> (forall k, exists k', swap_fun s1 k' = k) ->
+    forall k, In k (dkeys (combine_swaps s1 s2)) <->
+              (In k (dkeys s1) \/ In k (dkeys s2)) /\ swap_fun s2 (swap_fun s1 k) <> k.
+Proof. exact combine_keys. Qed.
+Print Assumptions C09_combine_drops_only_fixed_points.
+
+Theorem C09_complete_is_bijection :
+  forall N sw, wf_swaps N sw ->
+    (forall a b, swap_fun sw a = swap_fun sw b -> a = b) /\ (forall k, exists k', swap_fun sw k' = k).
+Proof. exact complete_is_bijection. Qed.
+Print Assumptions C09_complete_is_bijection.
+
+(* ---------------- compress_mode_swaps ---------------- *)
+(* the component count does not grow (repaired and pinned function alike) *)
+Theorem C09_compress_len :
+  forall (K : Type) (repair : bool) (sp : list (comp (K:=K))), length (compress_gen repair sp) <= length sp.
+Proof. exact (fun K => @compress_len K). Qed.
+Print Assumptions C09_compress_len.
+
+(* "a permutation supported off a component's modes commutes with it" *)
+Theorem C09_commutation_lemma :
+  forall (K : Type) (o : ops K) (SR : StarRing o) n p q (S : nat -> bool) (A : mat (K:=K)),
+    bij n p q -> id_off (o:=o) S A -> (forall i, S i = true -> p i = i) ->
+    meq n (mmul o n (perm_mat o p) A) (mmul o n A (perm_mat o p)).
+Proof. exact (fun K o SR => @perm_commute_off K o SR). Qed.
+Print Assumptions C09_commutation_lemma.
+
+(* ... lifted to compilation: a swap and any component (also a Group, a loss element with its extra
+   mode, another swap) on disjoint modes can be exchanged *)
+Theorem C09_swap_commutes_with_component :
+  forall (K : Type) (o : ops K) (SRK : StarRing o) (e : env (K:=K)) N sw (c : comp (K:=K)),
+    rok N c -> perm_on N (swap_fun sw) -> (forall m, In m (cmodes c) -> ~ In m (dkeys sw)) ->
+    forall st, dim_ge N st ->
+      steq (cadd o e c (cadd o e (Swaps sw) st)) (cadd o e (Swaps sw) (cadd o e c st)).
+Proof. exact (fun K o SRK => @swap_commute K o SRK). Qed.
+Print Assumptions C09_swap_commutes_with_component.
+
+(* full theorem for the repaired function: U_full unchanged, from every state with >= N modes *)
+Theorem C09_compress_preserves :
+  forall (K : Type) (o : ops K) (SRK : StarRing o) (e : env (K:=K)) N (sp : list (comp (K:=K))),
+    Forall (rok N) sp ->
+    forall s, dim_ge N s -> steq (cadd_list o e (compress_spec sp) s) (cadd_list o e sp s).
+Proof. exact (fun K o SRK => @compress_preserves K o SRK). Qed.
+Print Assumptions C09_compress_preserves.
+
+(* the function as it stood on the pinned tree (finding N5) is refuted: on
+   [Swaps{0<->1}; PS 2; Swaps{2<->3}; Swaps{0<->1}] a photon entering mode 0 leaves in mode 0, after
+   the pinned compress_mode_swaps in mode 1 (the last swap is merged twice); the repaired one keeps 0 *)
+Theorem C09_compress_pinned_refuted :
+  forall (K : Type) (v : val (K:=K)),
+    net_perm (n5_witness v) 0 = 0 /\ net_perm (compress_pinned (n5_witness v)) 0 = 1 /\
+    net_perm (compress_spec (n5_witness v)) 0 = 0.
+Proof. exact (fun K => @compress_pinned_refuted K). Qed.
+Print Assumptions C09_compress_pinned_refuted.
+
+(* the same at the level of U_full: the witness satisfies the hypothesis of [C09_compress_preserves],
+   yet in every ring with 1 <> 0 the pinned function changes the compiled matrix (entry [1,0]) *)
+Theorem C09_compress_pinned_changes_U_full :
+  forall (K : Type) (o : ops K) (SRK : StarRing o) (e : env (K:=K)) (x : triple (K:=K)),
+    k1 o <> k0 o ->
+    Forall (rok 4) (n5_witness (Lit x)) /\
+    ~ steq (cadd_list o e (compress_pinned (n5_witness (Lit x))) (Ok (4, mid (co o))))
+           (cadd_list o e (n5_witness (Lit x)) (Ok (4, mid (co o)))).
+Proof. exact (fun K o SRK e x H => conj (n5_witness_rok (Lit x)) (@compress_pinned_changes_U K o SRK e x H)). Qed.
+Print Assumptions C09_compress_pinned_changes_U_full.
+
+(* ---------------- frozen copies ---------------- *)
+(* no parameter reference is left, and the frozen copy compiles, under ANY later parameter values e',
+   to what the original compiled to at the moment e of freezing *)
+Theorem C09_freeze_closed :
+  forall (K : Type) (o : ops K) (e e' : env (K:=K)) (c : circ (K:=K)),
+    Forall (fun x => has_ref x = false) (c_spec (copy_frozen e c)) /\
+    build o e' (copy_frozen e c) = build o e c.
+Proof. exact (fun K o => @freeze_closed K o). Qed.
+Print Assumptions C09_freeze_closed.
+
+(* ---------------- every rewrite, and every sequence of rewrites ---------------- *)
+(* n_modes, heralds and input size are untouched by the wrappers; the compile outcome and U_full are
+   the same; the hypothesis is again true afterwards, so the statement chains *)
+Theorem C09_rewrite_sequence_preserves :
+  forall (K : Type) (o : ops K) (SRK : StarRing o) (e : env (K:=K)) (rs : list rw) (c : circ (K:=K)),
+    Forall (rok (c_n c)) (c_spec c) ->
+    let c' := fold_left (fun c r => apply_rw e r c) rs c in
+    (c_n c' = c_n c /\ c_in c' = c_in c /\ c_out c' = c_out c /\ input_modes c' = input_modes c /\
+     steq (build o e c') (build o e c)) /\
+    Forall (rok (c_n c')) (c_spec c').
+Proof. exact (fun K o SRK e rs c => @rewrites_preserve K o SRK e rs c). Qed.
+Print Assumptions C09_rewrite_sequence_preserves.
+
+(* and an unpack_groups after any sequence of rewrites leaves no Group *)
+Theorem C09_no_group_after_any_sequence :
+  forall (K : Type) (e : env (K:=K)) (rs : list rw) (c : circ (K:=K)),
+    no_nested (c_spec c) ->
+    Forall (fun x => is_group x = false)
+           (c_spec (unpack_groups (fold_left (fun c r => apply_rw e r c) rs c))).
+Proof. exact (fun K => @rewrites_then_unpack_no_group K). Qed.
+Print Assumptions C09_no_group_after_any_sequence.
+
+(* the hypothesis: components recorded by the Circuit API (CompileP.wf, an invariant of
+   bs/ps/loss/barrier/mode_swaps/add proved for C01) + the span condition for groups *)
+Theorem C09_hypotheses_from_wf :
+  forall (K : Type) (o : ops K) (SRK : StarRing o) (e : env (K:=K)) N (c : comp (K:=K)),
+    wf (o:=o) e N c -> span_ok c -> rok N c.
+Proof. exact (fun K o _ => @wf_rok K o). Qed.
+Print Assumptions C09_hypotheses_from_wf.
+
+(* non-vacuity: a 4-mode spec with swaps, a phase, a non-adjacent beam splitter and a group holding a
+   reversed non-adjacent beam splitter satisfies the hypotheses, and every rewrite changes it
+   (6 components -> 5 after compression, 8 after remove_non_adjacent_bs, 7 after unpacking) *)
+Example C09_hypotheses_satisfiable :
+  forall (K : Type) (v : val (K:=K)),
+    Forall (rok 4) (example_spec v) /\
+    (length (compress_spec (example_spec v)) = 5 /\ length (non_adj_spec (example_spec v)) = 8 /\
+     length (unpack_spec (example_spec v)) = 7 /\ no_nested (example_spec v)).
+Proof. exact (fun K v => conj (@example_rok K v) (@example_effects K v)). Qed.
